@@ -67,7 +67,15 @@ def scenarios(tier, seed):
         else:
             base["adapters"] = [] if base["sampler"] != "generic" else None
             base["stager"] = None if rng.random() < 0.7 else base["stager"]
-            base["n_chain"] = rng.choice([1, 2, 3])
+            base["n_chain"] = rng.choice([1, 1, 2, 3])
+            # array / momentum-less state inits are covered by a known finding: put most of the weight on
+            # inits whose chains must be independent of the run shape, and on every generator family
+            if base["sampler"] != "generic" and rng.random() < 0.6:
+                base["init"] = "state_mom"
+                if base.get("trace") == "tag":
+                    base["trace"] = "pos"
+            if rng.random() < 0.35:
+                base["bitgen"] = rng.choice(["SFC64", "SFC64", "Philox", "MT19937"])
             g["extra"] = rng.choice([1, 2])
             g["n_process"] = rng.choice([1, 1, 2, 3])
             base["sched"]["seed"] = rng.getrandbits(32)
